@@ -105,7 +105,8 @@ def run_cases(chk, binp, cases, pf_ok, pf):
             if "cont=false" in k and sum(go_codes.values()) != len(runs[k]["errors"]):
                 continue  # a rule outside the model reported too: where validation stopped is not the model's to say
             mo_codes = {}
-            for e in m[idx]:
+            for e in {json.dumps(e) for e in m[idx]}:      # a Result keeps one copy of identical messages
+                e = json.loads(e)
                 mo_codes[e[0]] = mo_codes.get(e[0], 0) + 1
             for code in mo_codes:
                 fired[code] = fired.get(code, 0) + 1
